@@ -17,7 +17,8 @@ Definition check_listing (c : listing_case) : list string :=
 Inductive crash := NoCrash | CrashIdx (k : nat) | CrashPkg (k : nat) | CrashRebuild (k : nat).
 
 Record bspec := {
-  b_idir : string; b_etag : string;      (* index directory, etag the origin serves now *)
+  b_idir : string; b_etag : string;      (* index directory, etag the origin serves when the HEAD is answered *)
+  b_etag_get : string;                   (* ... and when the GET is answered (differs if the repository is updated in between) *)
   b_pdir : string; b_apk : apk;          (* package directory and the package served now *)
   b_crash : crash
 }.
@@ -41,22 +42,26 @@ Fixpoint datahash_m_from (l : list (content * string)) (c : content) : string :=
   match l with [] => "?" | (a, h) :: t => if content_eqb a c then h else datahash_m_from t c end.
 Definition datahash_m := datahash_m_from dh.
 
-Definition run_prog (d : disk) (prog : list astep) (k : option nat) : disk :=
-  let n := match k with Some k => k | None => 4 * List.length prog + 16 end in
-  dsk (run gunzip_m {| dsk := d; procs := [prog] |} (repeat 0 n)).
+(* the origin while one process runs: its HEAD is the process's first step (time 0) *)
+Definition srv_m (e_head e_get : string) : server :=
+  fun t dir => let e := if Nat.eqb t 0 then e_head else e_get in (e, origin_of tab (PIndex dir e)).
+
+Definition run_prog_srv (srv : server) (d : disk) (prog : list astep) (k : option nat) : disk :=
+  let n := match k with Some k => k | None => 4 * List.length prog + 64 end in
+  dsk (run gunzip_m srv {| dsk := d; procs := [prog]; clk := 0 |} (repeat 0 n)).
+Definition run_prog := run_prog_srv (srv_m "" "").
 
 (* one build process with temporary-name identities o (index) and o+1 (package);
    returns the disk and whether the process ran to the end *)
 Definition model_build (d : disk) (o : nat) (b : bspec) : disk * bool :=
-  let origin := origin_of tab in
-  let idx := populate_index o (b_idir b) (b_etag b) (origin (PIndex (b_idir b) (b_etag b))) in
+  (* fetchAndCache: HEAD, Stat of the HEAD etag's name, GET, retrieveAndSaveFile; [CrashIdx k] counts
+     the steps of retrieveAndSaveFile (the three before it touch nothing) *)
+  let srv := srv_m (b_etag b) (b_etag_get b) in
+  let idx := [Head o (b_idir b) false] in
   let '(d1, dead) :=
-    match read_index d (b_idir b) (b_etag b) with
-    | Some _ => (d, false)
-    | None => match b_crash b with
-              | CrashIdx k => (run_prog d idx (Some k), true)
-              | _ => (run_prog d idx None, false)
-              end
+    match b_crash b, read_index d (b_idir b) (b_etag b) with
+    | CrashIdx k, None => (run_prog_srv srv d idx (Some (3 + k)), true)
+    | _, _ => (run_prog_srv srv d idx None, false)      (* a hit: the hook point is never reached *)
     end in
   if dead then (d1, false) else
   let a := b_apk b in
@@ -120,14 +125,27 @@ Definition check_scenario (c : scenario_case) : list string :=
          "mismatch:advertised-names-differ-from-model".
 
 (* ---- trace conformance --------------------------------------------------------- *)
+(* what one process did in one cache directory: an index download that got the
+   response (etag, origin's body) — HEAD, Stat and GET leave no file-system event
+   that is compared —, a package population, or a reader's rebuild *)
+Inductive tbuilder :=
+| TIndex (dir etag : string)
+| TPackage (dir : string) (a : apk)
+| TReader (dir dath : string).
+Definition tprog (origin : path -> content) (o : nat) (b : tbuilder) : list astep :=
+  match b with
+  | TIndex dir e => populate_index o dir e (origin (PIndex dir e))
+  | TPackage dir a => prog_of o (BPackage dir a)
+  | TReader dir dath => prog_of o (BReader dir dath)
+  end.
 Record trace_case := {
   tc_tab : origin_table;
   tc_owner : nat;
-  tc_builder : builder;
+  tc_builder : tbuilder;
   tc_trace : list tev
 }.
 Definition check_trace (c : trace_case) : list string :=
-  tag_if (negb (accepts (prog_of (origin_of (tc_tab c)) (tc_owner c) (tc_builder c)) (tc_trace c)))
+  tag_if (negb (accepts (tprog (origin_of (tc_tab c)) (tc_owner c) (tc_builder c)) (tc_trace c)))
          "mismatch:trace-not-accepted-by-protocol".
 
 (* ---- one case type for the generated files -------------------------------------- *)
